@@ -26,6 +26,7 @@ class AbsSeq:
     """A finite sequence of unknown length.  `view` records how the code has re-ordered it."""
 
     __pyvc_abstract__ = True
+    __pyvc_absseq__ = True
 
     def __init__(self, name, view="forward", start=None):
         self.name = name
@@ -202,6 +203,10 @@ def install(H):
     H.interp.models[functools.reduce] = m_reduce
 
     orig_enum = H.interp.models[enumerate]
-    H.interp.models[enumerate] = lambda x, start=0: x.enumerate(start) if isinstance(x, AbsSeq) else orig_enum(x, start)
+    def m_enum(x, start=0):
+        if not isinstance(x, AbsSeq) and type(x).__module__.startswith("picosvg") and not isinstance(x, tuple) and hasattr(type(x), "__iter__"):
+            x = H.interp.call_value(type(x).__iter__, (x,), {})
+        return x.enumerate(start) if isinstance(x, AbsSeq) else orig_enum(x, start)
+    H.interp.models[enumerate] = m_enum
     orig_rev = H.interp.models[reversed]
     H.interp.models[reversed] = lambda x: x.__reversed__() if isinstance(x, AbsSeq) else orig_rev(x)
